@@ -282,16 +282,26 @@ def observe_array_binop(op, t, arr, swap):
     """array operand: the result must be the array of the scalar results (numpy's reflected operator, element by element);
     the scalar operations themselves are checked by the other families"""
     import numpy as np
+    elems = arr.ravel().tolist() if arr.ndim else [arr.item()]
+    want, want_zero_div = [], False
+    for x in elems:                      # the scalar results (a division by zero among them makes the array operation raise)
+        try:
+            want.append(op(x, t) if swap else op(t, x))
+        except ZeroDivisionError:
+            want_zero_div = True
+        except Exception as e:
+            return {'crash': 'scalar operation: %s: %s' % (type(e).__name__, str(e)[:100])}
     try:
         with vlib.time_limit(5):
             r = op(arr, t) if swap else op(t, arr)
-            want = [op(x, t) if swap else op(t, x) for x in arr.ravel().tolist()] if arr.ndim else [op(arr.item(), t) if swap else op(t, arr.item())]
     except vlib.Timeout:
         return {'hang': True}
     except ZeroDivisionError:
-        return {'b': 'BZeroDiv'}
+        return {'b': 'BReflected'} if want_zero_div else {'b': 'BZeroDiv'}
     except Exception as e:
         return {'crash': '%s: %s' % (type(e).__name__, str(e)[:100])}
+    if want_zero_div:
+        return {'crash': 'an element operation divides by zero but the array operation returned %r' % (r,)}
     got = list(np.asarray(r, dtype=object).ravel().tolist()) if isinstance(r, np.ndarray) else [r]
     if np.shape(r) != arr.shape:
         return {'crash': 'result shape %r for operand shape %r' % (np.shape(r), arr.shape)}
